@@ -147,6 +147,8 @@ func (c *Ctx) evalBuiltin(name string, x *ast.CallExpr, s *State) Value {
 		t := c.typeOf(x.Args[0])
 		v := c.eval(x.Args[0], s)
 		switch u := t.Underlying().(type) {
+		case *types.Array:
+			return IntV{num(u.Len())}
 		case *types.Slice:
 			if name == "len" {
 				return IntV{v.(SliceV).Len}
@@ -184,6 +186,7 @@ func (c *Ctx) evalBuiltin(name string, x *ast.CallExpr, s *State) Value {
 			if c.checkPanics {
 				c.oblige(s, "make", c.text(x), x.Pos(), and(le("0", n), le(n, cp), le(cp, maxLen)), c.panicTags)
 			}
+			c.atClauses(s, fmt.Sprintf("make %d", c.callOrd[x]), x.Pos())
 			return c.allocSlice(s, u.Elem(), n, cp, true)
 		case *types.Map:
 			for _, a := range x.Args[1:] {
@@ -500,6 +503,7 @@ func (c *Ctx) callFuncValue(x *ast.CallExpr, s *State, name string, args []Value
 	}
 	c.abstractNote(x.Pos(), "call through function value "+name)
 	c.havocAll(s)
+	c.frameCallee = append(c.frameCallee, "all")
 	return c.freshResults(s, x, name)
 }
 
@@ -528,6 +532,11 @@ var noEffectPkgs = map[string]bool{
 func (c *Ctx) callFunc(x *ast.CallExpr, s *State, callee *types.Func, recv Value, args []Value) Value {
 	key := funcKey(callee)
 	sig := callee.Type().(*types.Signature)
+	if sig.TypeParams() != nil && sig.TypeParams().Len() > 0 {
+		if isig, ok := c.typeOf(x.Fun).(*types.Signature); ok {
+			sig = isig // instantiated signature at this call
+		}
+	}
 	if v, ok := c.specialCall(x, s, callee, key, recv, args); ok {
 		return v
 	}
@@ -557,6 +566,7 @@ func (c *Ctx) callFunc(x *ast.CallExpr, s *State, callee *types.Func, recv Value
 		}
 		c.abstractNote(x.Pos(), "call "+key+" (no contract): results and the whole heap havocked")
 		c.havocAll(s)
+		c.frameCallee = append(c.frameCallee, "all")
 	case noEffectPkgs[pkgName]:
 		c.note("calls into " + pkgName + " without a contract: results arbitrary, tracked state unchanged")
 		c.havocArgs(s, callee, args, sig, pkgName)
@@ -597,6 +607,7 @@ func (c *Ctx) havocArgs(s *State, callee *types.Func, args []Value, sig *types.S
 }
 
 func (c *Ctx) havocSliceContents(s *State, sv SliceV, elem types.Type) {
+	c.frameWrite(memKey(elem), sv.Ref)
 	for _, l := range leaves(elem) {
 		key := memKey(elem) + l
 		m := c.heapGet(s, key, sA2)
@@ -772,8 +783,28 @@ func (c *Ctx) applyContract(x *ast.CallExpr, s *State, k *Contract, sig *types.S
 	if !k.Pure {
 		if !k.HasModifies {
 			c.havocAll(s)
+			c.frameCallee = append(c.frameCallee, "all")
 		} else {
 			c.havocModifies(s, k.Modifies, env)
+			for _, m := range k.Modifies {
+				if strings.HasPrefix(m, "contents(") || strings.HasPrefix(m, "object(") {
+					name := m[strings.Index(m, "(")+1 : len(m)-1]
+					if b, ok := env.names[name]; ok {
+						switch u := b.t.Underlying().(type) {
+						case *types.Slice:
+							if !c.freshRefs[b.v.(SliceV).Ref] {
+								c.frameCallee = append(c.frameCallee, memKey(u.Elem()))
+							}
+						case *types.Pointer:
+							if !c.freshRefs[asInt(b.v)] {
+								c.frameCallee = append(c.frameCallee, "F."+typeKey(u.Elem())+".*")
+							}
+						}
+					}
+					continue
+				}
+				c.frameCallee = append(c.frameCallee, m)
+			}
 		}
 	}
 	// results
@@ -965,6 +996,9 @@ func (c *Ctx) specialCall(x *ast.CallExpr, s *State, callee *types.Func, key str
 		c.eng.onLock(c, s, x, callee.Name(), recv)
 		return NoneV{}, true
 	}
+	if key == "proto.Unmarshal" && len(args) == 2 && len(x.Args) == 2 {
+		return c.protoUnmarshal(x, s, args), true
+	}
 	// protobuf getters: nil-safe field reads
 	if callee.Pkg() != nil && callee.Pkg().Name() == "pb" && strings.HasPrefix(callee.Name(), "Get") && len(args) == 0 && recv != nil {
 		if v, ok := c.pbGetter(s, callee, recv); ok {
@@ -1042,7 +1076,70 @@ func (c *Ctx) pbGetter(s *State, callee *types.Func, recv Value) (Value, bool) {
 		res = fv
 	}
 	z := zeroValue(resT)
+	// declared proto2 default?
+	if named, ok := rt.Elem().(*types.Named); ok {
+		if dc, ok := callee.Pkg().Scope().Lookup("Default_" + named.Obj().Name() + "_" + fname).(*types.Const); ok {
+			z = constToValue(dc.Val(), dc.Type(), c)
+			if pt, isPtr := fld.Type().Underlying().(*types.Pointer); isPtr {
+				p := asInt(fv)
+				inner := c.loadPtr(s, p, pt.Elem())
+				res = c.mergeValues(s, []Value{inner, z}, []string{not(eq(p, "0")), "true"}, "get")
+			}
+		}
+	}
 	return c.mergeValues(s, []Value{z, res}, []string{eq(ref, "0"), "true"}, "get"), true
+}
+
+// protoUnmarshal models proto.Unmarshal(b, m): m's object graph is overwritten; on success every proto2 `req`
+// field of the message (and of its required sub-messages) is present. Assumed contract of the protobuf runtime.
+func (c *Ctx) protoUnmarshal(x *ast.CallExpr, s *State, args []Value) Value {
+	c.note("proto.Unmarshal: assumed contract - overwrites the target message, never panics, and on success all proto2 required fields are present")
+	ref := asInt(args[1])
+	st := c.typeOf(x.Args[1])
+	err := c.fresh("Unmarshal.err", sInt)
+	s.assume(le("0", err))
+	pt, isPtr := st.Underlying().(*types.Pointer)
+	if !isPtr {
+		// dynamic message type unknown: every protobuf message field may change
+		c.pendingHavoc(s, "F.pb.")
+		c.pendingHavoc(s, "M.")
+		c.frameCallee = append(c.frameCallee, "F.pb.*", "M.*")
+		return IntV{err}
+	}
+	c.havocObject(s, ref, pt.Elem())
+	// the sub-objects are freshly allocated by the decoder: their contents are arbitrary, which the next reads see
+	// through the havocked pointer fields (fresh refs are unconstrained)
+	c.pendingHavocPB(s, ref)
+	c.requiredPresent(s, ref, pt.Elem(), eq(err, "0"), 0)
+	return IntV{err}
+}
+
+// pendingHavocPB: sub-messages reachable from a decoded message are new objects with arbitrary contents.
+func (c *Ctx) pendingHavocPB(s *State, target string) {
+	// Sound over-approximation: all protobuf message fields become arbitrary.
+	c.pendingHavoc(s, "F.pb.")
+	if !c.freshRefs[target] {
+		c.frameCallee = append(c.frameCallee, "F.pb.*")
+	}
+}
+
+func (c *Ctx) requiredPresent(s *State, ref string, t types.Type, cond string, depth int) {
+	st, ok := t.Underlying().(*types.Struct)
+	if !ok || depth > 2 {
+		return
+	}
+	for i := 0; i < st.NumFields(); i++ {
+		f := st.Field(i)
+		tag := st.Tag(i)
+		if !strings.Contains(tag, ",req,") {
+			continue
+		}
+		if p, isPtr := f.Type().Underlying().(*types.Pointer); isPtr {
+			fv := asInt(c.readField(s, ref, t, f))
+			s.assume(implies(cond, lt("0", fv)))
+			c.requiredPresent(s, fv, p.Elem(), cond, depth+1)
+		}
+	}
 }
 
 var _ = token.NoPos
